@@ -45,125 +45,160 @@ structure Cfg where
   collecting : Bool := false      -- set by collect()
   deriving Repr, DecidableEq, Inhabited
 
-structure RunSt (σ : Type) where
+/-- what the loop keeps between records and what the matcher may see of it -/
+structure LoopSt (σ : Type) where
   ms : σ
   fl : Flags := {}
   scanCount : Nat := 0
   curMatchCount : Nat := 0
   dataCount : Int := 0          -- LineMonitor data counters; the first record sets them
   dataNumber : Int := 0
-  unmatched : List Rec := []
-  -- ghost fields (never read by the model): what was offered to the matcher / what it answered
-  offered : List Nat := []
-  matched : List Nat := []
-  yielded : List Nat := []
-  unmatchedIdx : List Nat := []
-  seen : Nat := 0
+  -- ghost fields (never read by the model)
+  offered : List Nat := []      -- records handed to the match part (scanned, non-blank)
+  matched : List Nat := []      -- offered records on which the matcher answered True
+  declined : List Nat := []     -- offered records that did not match (incl. advanced-over ones)
   deriving Repr, Inhabited
 
+/-- what the consumer side of `next()` accumulates -/
+structure Acc where
+  unmatched : List Rec := []
+  unmatchedIdx : List Nat := []
+  yielded : List Nat := []
+  seen : Nat := 0
+  deriving Repr, DecidableEq, Inhabited
+
 /-- `LineMonitor.next_line` for the data counters (`physical_*` is the index itself) -/
-def trackLine {σ} (i : Nat) (r : Rec) (st : RunSt σ) : RunSt σ :=
+def trackData (i : Nat) (r : Rec) (dc dn : Int) : Int × Int :=
   let hasData := !r.isEmpty
   if i == 0 then
-    if hasData then { st with dataCount := 1, dataNumber := 0 }
-    else { st with dataCount := -1, dataNumber := -1 }
+    if hasData then (1, 0) else (-1, -1)
   else if hasData then
-    let c := if st.dataCount == -1 then 0 else st.dataCount
-    { st with dataCount := c + 1, dataNumber := i }
-  else st
+    ((if dc == -1 then 0 else dc) + 1, i)
+  else (dc, dn)
 
-def mkCtx {σ} (i : Nat) (endIdx : Option Nat) (blankLast : Bool) (st : RunSt σ) : Ctx :=
+def trackLine {σ} (i : Nat) (r : Rec) (st : LoopSt σ) : LoopSt σ :=
+  { st with dataCount := (trackData i r st.dataCount st.dataNumber).1,
+            dataNumber := (trackData i r st.dataCount st.dataNumber).2 }
+
+def mkCtx {σ} (i : Nat) (endIdx : Option Nat) (blankLast : Bool) (st : LoopSt σ) : Ctx :=
   { idx := i, endIdx := endIdx, blankLast := blankLast, scanCount := st.scanCount,
     curMatchCount := st.curMatchCount, dataCount := st.dataCount, dataNumber := st.dataNumber }
 
 /-- `raise_match_count_if` -/
-def raiseMatchCountIf {σ} (st : RunSt σ) : RunSt σ :=
+def raiseMatchCountIf {σ} (st : LoopSt σ) : LoopSt σ :=
   if st.curMatchCount == st.fl.matchCount then
     { st with fl := { st.fl with matchCount := st.fl.matchCount + 1 } }
   else st
 
-/-- `CsvPath._consider_line` -/
-def considerLine {σ} (m : MatcherSem σ) (scan : St) (cfg : Cfg) (endIdx : Option Nat)
-    (i : Nat) (r : Rec) (st : RunSt σ) : Bool × RunSt σ :=
+/-- the matcher call -/
+def callMatcher {σ} (m : MatcherSem σ) (endIdx : Option Nat) (i : Nat) (blankLast : Bool) (r : Rec)
+    (st : LoopSt σ) : Bool × LoopSt σ :=
+  let res := m.eval (mkCtx i endIdx blankLast st) r st.ms st.fl
+  (res.1, { st with ms := res.2.1, fl := res.2.2 })
+
+/-- the record is scanned: `scan_count += 1`, `_current_match_count = match_count` -/
+def offer {σ} (i : Nat) (st : LoopSt σ) : LoopSt σ :=
+  { st with scanCount := st.scanCount + 1, curMatchCount := st.fl.matchCount, offered := st.offered ++ [i] }
+
+def decAdvance {σ} (st : LoopSt σ) : LoopSt σ :=
+  { st with fl := { st.fl with advance := st.fl.advance - 1 } }
+
+/-- `if self.advance_count > 0: … matches = False else: matches = self.matches(line)` -/
+def advanceOrMatch {σ} (m : MatcherSem σ) (endIdx : Option Nat) (i : Nat) (r : Rec) (st : LoopSt σ) :
+    Bool × LoopSt σ :=
+  if st.fl.advance > 0 then (false, decAdvance st) else callMatcher m endIdx i false r st
+
+/-- `if self.scanner.is_last(n): self.stop()` -/
+def markStop {σ} (scan : St) (endIdx : Option Nat) (i : Nat) (st : LoopSt σ) : LoopSt σ :=
+  if isLast scan endIdx i then { st with fl := { st.fl with stopped := true } } else st
+
+/-- the end of `_consider_line` for an offered record -/
+def conclude {σ} (i : Nat) (b : Bool) (st : LoopSt σ) : Option Bool × LoopSt σ :=
+  if b then
+    (some true, { raiseMatchCountIf st with matched := (raiseMatchCountIf st).matched ++ [i] })
+  else (some false, { st with declined := st.declined ++ [i] })
+
+def freeze {σ} (st : LoopSt σ) : LoopSt σ := { st with fl := { st.fl with frozen := true } }
+
+/-- `CsvPath._consider_line` up to (not including) the return-mode decision: the outcome is
+    `none` when the record is not offered, `some b` when it is offered and `b` says whether it
+    matched. -/
+def considerCore {σ} (m : MatcherSem σ) (scan : St) (endIdx : Option Nat)
+    (i : Nat) (r : Rec) (st : LoopSt σ) : Option Bool × LoopSt σ :=
   if endIdx == some i && r.isEmpty then
     -- last line and blank: freeze, let the matcher run its last()s, drop the answer
-    let st1 := { st with fl := { st.fl with frozen := true } }
-    let (_, ms, fl) := m.eval (mkCtx i endIdx true st1) r st1.ms st1.fl
-    (false, { st1 with ms := ms, fl := fl })
-  else if r.isEmpty then (false, st)
+    (none, (callMatcher m endIdx i true r (freeze st)).2)
+  else if r.isEmpty then (none, st)
   else if includes scan i then
-    let st1 := { st with scanCount := st.scanCount + 1, curMatchCount := st.fl.matchCount,
-                         offered := st.offered ++ [i] }
-    let (b, st2) :=
-      if st1.fl.advance > 0 then
-        (false, { st1 with fl := { st1.fl with advance := st1.fl.advance - 1 } })
-      else
-        let (b, ms, fl) := m.eval (mkCtx i endIdx false st1) r st1.ms st1.fl
-        (b, { st1 with ms := ms, fl := fl })
-    let st3 := if isLast scan endIdx i then { st2 with fl := { st2.fl with stopped := true } } else st2
-    if b then
-      let st4 := raiseMatchCountIf st3
-      let st5 := { st4 with matched := st4.matched ++ [i] }
-      (!cfg.cwnm, st5)
-    else (cfg.cwnm, st3)
-  else (false, st)
+    let bs := advanceOrMatch m endIdx i r (offer i st)
+    conclude i bs.1 (markStop scan endIdx i bs.2)
+  else (none, st)
+
+/-- the return-mode decision (`collect_when_not_matched`) -/
+def decide? (cwnm : Bool) : Option Bool → Bool
+  | none => false
+  | some b => if cwnm then !b else b
+
+/-- `CsvPath._consider_line` -/
+def considerLine {σ} (m : MatcherSem σ) (scan : St) (cwnm : Bool) (endIdx : Option Nat)
+    (i : Nat) (r : Rec) (st : LoopSt σ) : Bool × LoopSt σ :=
+  let res := considerCore m scan endIdx i r st
+  (decide? cwnm res.1, res.2)
 
 /-- `finalize` -/
-def finalize {σ} (st : RunSt σ) : RunSt σ := { st with fl := { st.fl with frozen := true } }
+def finalize {σ} (st : LoopSt σ) : LoopSt σ := freeze st
 
-/-- one record of `next()`: track, consider, yield or keep as unmatched -/
-def stepRec {σ} (m : MatcherSem σ) (scan : St) (cfg : Cfg) (endIdx : Option Nat)
-    (i : Nat) (r : Rec) (st : RunSt σ) : Option Rec × RunSt σ :=
-  let (b, st0) := considerLine m scan cfg endIdx i r (trackLine i r st)
-  let st1 := { st0 with seen := st0.seen + 1 }
-  if b then (some r, { st1 with yielded := st1.yielded ++ [i] })
-  else if cfg.collecting && cfg.unmatchedAvail then
-    (none, { st1 with unmatched := st1.unmatched ++ [r], unmatchedIdx := st1.unmatchedIdx ++ [i] })
-  else (none, st1)
+/-- consumer side of one record: yield or keep as unmatched -/
+def accStep (keepUnm : Bool) (i : Nat) (r : Rec) (b : Bool) (acc : Acc) : Acc :=
+  let acc1 := { acc with seen := acc.seen + 1 }
+  if b then { acc1 with yielded := acc1.yielded ++ [i] }
+  else if keepUnm then
+    { acc1 with unmatched := acc1.unmatched ++ [r], unmatchedIdx := acc1.unmatchedIdx ++ [i] }
+  else acc1
 
 /-- the generator `next()` consumed with a budget of yields: `none` = to exhaustion (then
     `finalize` runs), `some k` = the consumer breaks right after the k-th yield and the generator
-    is abandoned at the `yield` (no `if self.stopped`, no `finalize`). -/
-def runFrom {σ} (m : MatcherSem σ) (scan : St) (cfg : Cfg) (endIdx : Option Nat) :
-    Option Nat → Nat → List Rec → RunSt σ → List Rec × RunSt σ
-  | _, _, [], st => ([], finalize st)
-  | budget, i, r :: rs, st =>
-    match stepRec m scan cfg endIdx i r st with
-    | (some y, st1) =>
-      match budget with
-      | some 1 => ([y], st1)                       -- consumer breaks; generator abandoned
-      | some 0 => ([y], st1)                       -- `nexts = 0` behaves like 1
-      | _ =>
-        if st1.fl.stopped then ([y], finalize st1)
-        else
-          let (ys, st2) := runFrom m scan cfg endIdx (budget.map (· - 1)) (i + 1) rs st1
-          (y :: ys, st2)
-    | (none, st1) =>
-      if st1.fl.stopped then ([], finalize st1)
-      else runFrom m scan cfg endIdx budget (i + 1) rs st1
+    is abandoned at the `yield` (no `if self.stopped`, no `finalize`).
+    `keepUnm` = `collecting and unmatched_available`. -/
+def runFrom {σ} (m : MatcherSem σ) (scan : St) (cwnm keepUnm : Bool) (endIdx : Option Nat) :
+    Option Nat → Nat → List Rec → LoopSt σ → Acc → List Rec × LoopSt σ × Acc
+  | _, _, [], st, acc => ([], finalize st, acc)
+  | budget, i, r :: rs, st, acc =>
+    let res := considerLine m scan cwnm endIdx i r (trackLine i r st)
+    let acc1 := accStep keepUnm i r res.1 acc
+    if res.1 then
+      if budget == some 1 || budget == some 0 then ([r], res.2, acc1)   -- consumer breaks
+      else if res.2.fl.stopped then ([r], finalize res.2, acc1)
+      else
+        let rest := runFrom m scan cwnm keepUnm endIdx (budget.map (· - 1)) (i + 1) rs res.2 acc1
+        (r :: rest.1, rest.2)
+    else
+      if res.2.fl.stopped then ([], finalize res.2, acc1)
+      else runFrom m scan cwnm keepUnm endIdx budget (i + 1) rs res.2 acc1
 
 def endIdxOf (recs : List Rec) : Option Nat := if recs.isEmpty then none else some (recs.length - 1)
 
-/-- `CsvPath.next()` to exhaustion: the yielded lines and the final state -/
-def nextRun {σ} (m : MatcherSem σ) (scan : St) (cfg : Cfg) (recs : List Rec) (st : RunSt σ) :
-    List Rec × RunSt σ :=
-  if cfg.willRun then runFrom m scan { cfg with collecting := false } (endIdxOf recs) none 0 recs st
-  else ([], finalize st)
+/-- the three entry points share one loop; they differ in `collecting` and in the budget -/
+def runWith {σ} (m : MatcherSem σ) (scan : St) (cfg : Cfg) (budget : Option Nat) (recs : List Rec)
+    (st : LoopSt σ) : List Rec × LoopSt σ × Acc :=
+  if cfg.willRun then
+    runFrom m scan cfg.cwnm (cfg.collecting && cfg.unmatchedAvail) (endIdxOf recs) budget 0 recs st {}
+  else ([], finalize st, {})
+
+/-- `CsvPath.next()` to exhaustion -/
+def nextRun {σ} (m : MatcherSem σ) (scan : St) (cfg : Cfg) (recs : List Rec) (st : LoopSt σ) :=
+  runWith m scan { cfg with collecting := false } none recs st
 
 /-- `CsvPath.collect()` -/
-def collectRun {σ} (m : MatcherSem σ) (scan : St) (cfg : Cfg) (recs : List Rec) (st : RunSt σ) :
-    List Rec × RunSt σ :=
-  if cfg.willRun then runFrom m scan { cfg with collecting := true } (endIdxOf recs) none 0 recs st
-  else ([], finalize st)
+def collectRun {σ} (m : MatcherSem σ) (scan : St) (cfg : Cfg) (recs : List Rec) (st : LoopSt σ) :=
+  runWith m scan { cfg with collecting := true } none recs st
 
-/-- `CsvPath.fast_forward()` -/
-def ffRun {σ} (m : MatcherSem σ) (scan : St) (cfg : Cfg) (recs : List Rec) (st : RunSt σ) : RunSt σ :=
-  (nextRun m scan cfg recs st).2
+/-- `CsvPath.fast_forward()`: `next()` with the lines dropped -/
+def ffRun {σ} (m : MatcherSem σ) (scan : St) (cfg : Cfg) (recs : List Rec) (st : LoopSt σ) : LoopSt σ :=
+  (nextRun m scan cfg recs st).2.1
 
 /-- `CsvPath.collect(nexts=n)`, n ≥ 0 -/
-def collectN {σ} (m : MatcherSem σ) (scan : St) (cfg : Cfg) (n : Nat) (recs : List Rec) (st : RunSt σ) :
-    List Rec × RunSt σ :=
-  if cfg.willRun then runFrom m scan { cfg with collecting := true } (endIdxOf recs) (some n) 0 recs st
-  else ([], finalize st)
+def collectN {σ} (m : MatcherSem σ) (scan : St) (cfg : Cfg) (n : Nat) (recs : List Rec) (st : LoopSt σ) :=
+  runWith m scan { cfg with collecting := true } (some n) recs st
 
 end Model.Run
